@@ -39,7 +39,7 @@ for n, (f, props, a, b, new, kind) in enumerate(cands[:N]):
             print(n, f, line, kind, 'DOES NOT COMPILE', flush=True); continue
         out = []
         for pr in props.split():
-            r = subprocess.run(['/verif/check', pr, '--tier', 'quick'], env=dict(os.environ, VERIF_REPO=d, VERIF_NO_REPLAYER='1'), stdout=subprocess.PIPE, stderr=subprocess.STDOUT, text=True)
+            r = subprocess.run([os.path.join(os.path.dirname(os.path.dirname(os.path.dirname(os.path.abspath(__file__)))), 'check'), pr, '--tier', 'quick'], env=dict(os.environ, VERIF_REPO=d, VERIF_NO_REPLAYER='1'), stdout=subprocess.PIPE, stderr=subprocess.STDOUT, text=True)
             und = [l.strip()[:140] for l in r.stdout.split('\n') if 'UNDECIDED' in l or 'failed obligation' in l][:2]
             out.append((pr, r.returncode, und))
         bad = [o for o in out if o[1] == 1]
